@@ -480,6 +480,13 @@ class EriOrbenergy:
                         cancelled_result += \
                             pref * self.eri * num / multiply(denom)
                     break
+            else:
+                # tried all brackets: keep the part of the numerator that
+                # could not be cancelled
+                if cancelled_result is not None and \
+                        not num.sympy.is_number:
+                    cancelled_result += \
+                        pref * self.eri * num / multiply(denom)
             # return just the term if it was not possible to successfully
             # cancel any bracket
             return self.expr if cancelled_result is None else cancelled_result
